@@ -6,8 +6,13 @@ require (
 	github.com/apache/thrift v0.13.0
 	github.com/cloudwego/gopkg v0.2.0
 	github.com/cloudwego/thriftgo v0.0.0
+	github.com/dlclark/regexp2 v1.11.0
 )
 
-require github.com/bytedance/gopkg v0.1.4 // indirect
+require (
+	github.com/bytedance/gopkg v0.1.4 // indirect
+	golang.org/x/text v0.14.0 // indirect
+	gopkg.in/yaml.v3 v3.0.1 // indirect
+)
 
 replace github.com/cloudwego/thriftgo => /repo
